@@ -12,6 +12,8 @@ git -C /repo worktree add --detach $W/repo HEAD >/dev/null 2>&1 || { echo "$name
 git -C $W/repo apply --3way $patch 2>/dev/null || git -C $W/repo apply $patch || { echo "$name: APPLY FAILED"; git -C /repo worktree remove --force $W/repo; rm -rf $W; exit 3; }
 rsync -a --exclude work --exclude .git --exclude evidence /verif/ $W/verif/
 mkdir -p $W/verif/work $W/verif/evidence
+# optional: a change to the machinery itself that goes with the change under test (e.g. the specification of a repair)
+[ -n "$VERIF_COPY_PATCH" ] && ( cd $W/verif && patch -p1 -s < "$VERIF_COPY_PATCH" ) 
 sed -i "s#\"/repo#\"$W/repo#g" $W/verif/harness/Cargo.toml
 sed -i "s#\"/repo/Cargo.lock\"#\"$W/repo/Cargo.lock\"#" $W/verif/bin/vlib.py
 rc=0
